@@ -36,10 +36,14 @@ func Spec_RescaleCriterion(c *Criterion, alternatives *[]AlternativeWithCriteria
 
 func Spec_scaleCriterion(c *Criterion, a AlternativeWithCriteria, currentRange *utils.ValueRange, scale float64, target *utils.ValueRange) Weight {
 	value := a.Spec_CriterionRawValue(c)
+	if scale == 0 {
+		return target.Min
+	}
+	// C18: rescaled to [0, T] - the share of the current range first, so that its end is mapped onto T exactly
 	if c.Type == Cost {
-		return (currentRange.Max-value)*scale + target.Min
+		return (currentRange.Max-value)/currentRange.Spec_Diff()*target.Spec_Diff() + target.Min
 	} else {
-		return (value-currentRange.Min)*scale + target.Min
+		return (value-currentRange.Min)/currentRange.Spec_Diff()*target.Spec_Diff() + target.Min
 	}
 }
 
